@@ -99,3 +99,38 @@ func H_C10_Crash() {
 	vAssert("c10.committed-kept-and-inflight-atomic", vOr(obsSame(o, before), obsSame(o, after)))
 	db2.Close()
 }
+
+// H_C10_TxIDs (X1): transaction ids must be pairwise distinct even when transactions begin within the
+// same millisecond (the clock is symbolic and only non-decreasing). Recovery identifies committed
+// transactions by id, so a shared id lets a failed transaction ride on another one's commit marker.
+func H_C10_TxIDs() {
+	vSetup()
+	defer vCleanup()
+	db, err := Open(vOptsFull(vDir(), HintKeyValAndRAMIdxMode, FileIO, FileIO, 4096, false))
+	if err != nil {
+		vFail("c10.open")
+		return
+	}
+	vSetMsMode(1)
+	n := vParam("n")
+	var ids []uint64
+	for i := 0; i < n; i++ {
+		tx, err := db.Begin(vChoose(2) == 0)
+		if err != nil {
+			vFail("c10.begin")
+			return
+		}
+		ids = append(ids, tx.id)
+		_ = tx.Rollback()
+	}
+	vSetMsMode(0)
+	vReach("c10.txids")
+	ok := true
+	for i := range ids {
+		for j := 0; j < i; j++ {
+			ok = vAnd(ok, ids[i] != ids[j])
+		}
+	}
+	vAssert("c10.txids-distinct", ok)
+	db.Close()
+}
